@@ -7,6 +7,12 @@ HERE = os.path.dirname(os.path.abspath(__file__))
 
 # id -> (technique, level text, level note, design ref)
 CLAIMED = {
+ "C01": ("wire-layout abstract interpretation with a bit-provenance domain: E(D(x)) = x per bit, per discriminant configuration; committed don't-care ledger",
+         "Structural part only: for every registered box type outside a frozen irregular table, and every configuration of its discriminants (version, flag bits, compared counts, header length, presence predicates), each bit the encoder writes is the input bit the decoder kept for that position, or a constant where the decoder discards (and those runs are on the committed don't-care list); field order, widths, guards and loop structure agree. Not decided: irregular boxes (esds, meta, senc, sgpd, uuid, moof, hdlr, mime), numeric loop bounds, value arithmetic in opaque expressions, the decode-again fixed point.",
+         "the interpreter models the bits.* stream APIs and analyses loops on one generic iteration; integer conversions inside opaque arithmetic are assumed value-preserving; children are opaque (each child type is its own obligation).", "DESIGN.md §3 E1, §4 C01"),
+ "C02": ("wire-layout abstract interpretation: symbolic byte count of EncodeSW vs Size() as polynomials per configuration; wrapper-shape rule; member-set agreement of composites on a symbolic receiver",
+         "Structural part only: per configuration the symbolic number of bytes EncodeSW writes equals Size() and the header carries Size() of the same box (all registered box types outside the irregular table, avc/hevc/av1 configuration records through their boxes); every Encode wrapper allocates exactly Size(); Size/Encode/EncodeSW of File, InitSegment, MediaSegment and Fragment visit the same members. Not decided: irregular boxes, numeric equality of loop bounds, idempotence of repeated encodes, API-built box values that violate decoder-established length facts.",
+         "as C01; composites are analysed on a symbolic receiver whose members are opaque.", "DESIGN.md §3 E1/E7, §4 C02"),
  "C03": ("registry/delegation/wrapper shape rules over go/types + go/ssa; wire-layout sibling comparison",
          "Structural necessary conditions only: the two decoder registries agree key-by-key (same pairing, same concrete box types), every delegating reader-path decoder delegates to its registered twin over exactly its own body, every Encode wrapper allocates Size() and writes what EncodeSW produced, separately written decoder/encoder pairs have the same wire layout, the file-level encoders visit the same members. Not decided: numeric equality of start positions, error texts.",
          "go/types + go/ssa of x/tools v0.29.0 are trusted; dynamic calls in decoders are not resolved (none today).", "DESIGN.md §4 C03"),
